@@ -120,6 +120,7 @@ fn main() {
     }
 
     // ---------------------------------------------------- parent
+    sweep_stale_scratch();
     let t_start = Instant::now();
     let exe = std::env::current_exe().expect("current_exe");
     let scratch = run::scratch_dir().clone();
@@ -354,4 +355,19 @@ pub fn frames_self_test() -> Result<(), String> {
         return Err("CRC-24 not linear".into());
     }
     Ok(())
+}
+
+/// scratch directories of harness processes that no longer exist (killed runs) are removed
+fn sweep_stale_scratch() {
+    for base in ["/dev/shm", "/tmp"] {
+        let Ok(rd) = std::fs::read_dir(base) else { continue };
+        for e in rd.flatten() {
+            let name = e.file_name().to_string_lossy().into_owned();
+            if let Some(pid) = name.strip_prefix("sqv-").and_then(|p| p.parse::<u32>().ok()) {
+                if !std::path::Path::new(&format!("/proc/{pid}")).exists() {
+                    let _ = std::fs::remove_dir_all(e.path());
+                }
+            }
+        }
+    }
 }
